@@ -391,6 +391,125 @@ fn vec_sinks(ctx: &Ctx) {
     }
 }
 
+const PLACED_EPS: [&str; 10] = ["write", "read", "write_slice", "read_slice", "copy_from<u8>", "copy_to<u8>", "read_volatile_from(&[u8])", "write_volatile_to(&mut [u8])", "write_obj", "read_obj"];
+
+/// One transfer of `len` bytes between guest bytes at `gptr` and a local buffer at `lptr` (both
+/// with 32 accessible bytes) through entry point `ep`, judged by the access rule and the data.
+fn placed_transfer(ctx: &Ctx, ep: &str, gptr: *mut u8, lptr: *mut u8, len: usize) -> Option<(String, String)> {
+    set_cur(ep, len, 0, 0);
+    if ep.ends_with("_obj") && !matches!(len, 1 | 2 | 4 | 8) {
+        return None;
+    }
+    // SAFETY: both buffers are at least 64 bytes and disjoint
+    unsafe {
+        for i in 0..32 {
+            *gptr.add(i) = 0x10 + i as u8;
+            *lptr.add(i) = 0x90 + i as u8;
+        }
+    }
+    let vs = unsafe { VolatileSlice::new(gptr, 32) };
+    let local: &mut [u8] = unsafe { std::slice::from_raw_parts_mut(lptr, len) };
+    let before_l: Vec<u8> = unsafe { std::slice::from_raw_parts(lptr, 32).to_vec() };
+    let before_g: Vec<u8> = unsafe { std::slice::from_raw_parts(gptr, 32).to_vec() };
+    let (dir, (r, events)): (Dir, (Result<(), String>, Vec<Event>)) = match ep {
+        "write" => (Dir::ToGuest, traced(|| vs.write(local, 0).map(|_| ()).map_err(|e| format!("{:?}", e)))),
+        "read" => (Dir::FromGuest, traced(|| vs.read(local, 0).map(|_| ()).map_err(|e| format!("{:?}", e)))),
+        "write_slice" => (Dir::ToGuest, traced(|| vs.write_slice(local, 0).map_err(|e| format!("{:?}", e)))),
+        "read_slice" => (Dir::FromGuest, traced(|| vs.read_slice(local, 0).map_err(|e| format!("{:?}", e)))),
+        "copy_from<u8>" => (Dir::ToGuest, traced(|| {
+            vs.subslice(0, len).unwrap().copy_from(&*local);
+            Ok(())
+        })),
+        "copy_to<u8>" => (Dir::FromGuest, traced(|| {
+            vs.subslice(0, len).unwrap().copy_to(local);
+            Ok(())
+        })),
+        "read_volatile_from(&[u8])" => (Dir::ToGuest, traced(|| {
+            let mut src: &[u8] = &*local;
+            vs.read_volatile_from(0, &mut src, len).map(|_| ()).map_err(|e| format!("{:?}", e))
+        })),
+        "write_volatile_to(&mut [u8])" => (Dir::FromGuest, traced(|| {
+            let mut dst: &mut [u8] = &mut *local;
+            vs.write_volatile_to(0, &mut dst, len).map(|_| ()).map_err(|e| format!("{:?}", e))
+        })),
+        "write_obj" => (Dir::ToGuest, traced(|| {
+            match len {
+                1 => vs.write_obj(0x90u8, 0),
+                2 => vs.write_obj(0x9190u16, 0),
+                4 => vs.write_obj(0x9392_9190u32, 0),
+                _ => vs.write_obj(0x9796_9594_9392_9190u64, 0),
+            }
+            .map_err(|e| format!("{:?}", e))
+        })),
+        _ => (Dir::FromGuest, traced(|| {
+            match len {
+                1 => vs.read_obj::<u8>(0).map(|v| local.copy_from_slice(&v.to_ne_bytes())),
+                2 => vs.read_obj::<u16>(0).map(|v| local.copy_from_slice(&v.to_ne_bytes())),
+                4 => vs.read_obj::<u32>(0).map(|v| local.copy_from_slice(&v.to_ne_bytes())),
+                _ => vs.read_obj::<u64>(0).map(|v| local.copy_from_slice(&v.to_ne_bytes())),
+            }
+            .map_err(|e| format!("{:?}", e))
+        })),
+    };
+    ctx.case(true);
+    // whole objects live in the callee: naturally aligned, address not observable
+    let l_addr = if ep.ends_with("_obj") { 0 } else { lptr as usize };
+    let mut bad: Option<(String, String)> = None;
+    if let Err(e) = r {
+        bad = Some(("unexpected-error".into(), e));
+    } else if len > 8 {
+        // bulk path: only the data is judged
+    } else if let Err(e) = judge(&events, dir, gptr as usize, l_addr, len, (gptr as usize, gptr as usize + 32)) {
+        bad = Some(e);
+    }
+    if bad.is_none() {
+        let now_l: Vec<u8> = unsafe { std::slice::from_raw_parts(lptr, 32).to_vec() };
+        let now_g: Vec<u8> = unsafe { std::slice::from_raw_parts(gptr, 32).to_vec() };
+        let ok = match dir {
+            Dir::ToGuest => (ep == "write_obj" || now_g[..len] == before_l[..len]) && now_g[len..] == before_g[len..] && now_l == before_l && (ep != "write_obj" || now_g[..len] == before_l[..len]),
+            Dir::FromGuest => now_l[..len] == before_g[..len] && now_l[len..] == before_l[len..] && now_g == before_g,
+        };
+        if !ok {
+            bad = Some(("data".into(), "the bytes did not arrive unchanged, or other bytes changed".into()));
+        }
+    }
+    bad
+}
+
+/// Every naturally aligned position of a 4 KiB page (and the positions around the boundary to
+/// the next page), for the guest bytes and in turn for the local buffer: an access width chosen
+/// from the distance to the end of a page, of a cache line or of any other block meets its
+/// boundary cases here and nowhere in the small buffers of the class enumeration.
+fn page_positions(ctx: &Ctx) {
+    let arena = crate::arena::Arena::new(3);
+    let mut other = vec![0u64; 8];
+    let lo = other.as_mut_ptr() as *mut u8;
+    let base = arena.ptr();
+    let mut n = 0u64;
+    for len in [2usize, 4, 8, 1] {
+        let mut pos = 0usize;
+        while pos + 32 <= 2 * 4096 + 64 {
+            for placed_is_guest in [true, false] {
+                // SAFETY: pos + 32 stays inside the three accessible pages
+                let at = unsafe { base.add(pos) };
+                let (gptr, lptr) = if placed_is_guest { (at, lo) } else { (lo, at) };
+                for ep in PLACED_EPS {
+                    n += 1;
+                    if let Some((k, d)) = placed_transfer(ctx, ep, gptr, lptr, len) {
+                        let key = format!("C06/slice/{} (position within a page)/{}", ep, k);
+                        let rp = if ctx.has_failed(&key) { Value::Null } else { json!({"entry_point": ep, "len": len, "page_offset": format!("{:#x}", pos % 4096), "placed_side": if placed_is_guest { "guest" } else { "local buffer" }}) };
+                        ctx.fail(&key, &format!("len {}, {} at page offset {:#x}: {}", len, if placed_is_guest { "guest bytes" } else { "local buffer" }, pos % 4096, d), rp);
+                    }
+                }
+            }
+            // every aligned slot of the first page, then only the slots around the next boundary
+            pos += if pos < 4096 + 64 { len.max(if len == 1 { 61 } else { 1 }) } else { 8 * len };
+        }
+    }
+    drop(other);
+    ctx.extra("page_position_transfers", json!(n));
+}
+
 /// Host addresses of every power-of-two alignment the address space offers: the guest bytes (and,
 /// in turn, the local buffer) sit at an address with exactly 4..=46 trailing zero bits, obtained
 /// with mmap(MAP_FIXED_NOREPLACE) at k << tz. Address arithmetic on the alignment (lowest set
@@ -431,85 +550,8 @@ fn high_alignment_classes(ctx: &Ctx) {
         for guest_is_high in [true, false] {
             let (gptr, lptr) = if guest_is_high { (hi, lo) } else { (lo, hi) };
             for len in [1usize, 2, 4, 8, 3, 16] {
-                for ep in ["write", "read", "write_slice", "read_slice", "copy_from<u8>", "copy_to<u8>", "read_volatile_from(&[u8])", "write_volatile_to(&mut [u8])", "write_obj", "read_obj"] {
-                    set_cur(ep, len, 0, 0);
-                    if ep.ends_with("_obj") && !matches!(len, 1 | 2 | 4 | 8) {
-                        continue;
-                    }
-                    // SAFETY: both buffers are at least 64 bytes and disjoint
-                    unsafe {
-                        for i in 0..32 {
-                            *gptr.add(i) = 0x10 + i as u8;
-                            *lptr.add(i) = 0x90 + i as u8;
-                        }
-                    }
-                    let vs = unsafe { VolatileSlice::new(gptr, 32) };
-                    let local: &mut [u8] = unsafe { std::slice::from_raw_parts_mut(lptr, len) };
-                    let before_l: Vec<u8> = unsafe { std::slice::from_raw_parts(lptr, 32).to_vec() };
-                    let before_g: Vec<u8> = unsafe { std::slice::from_raw_parts(gptr, 32).to_vec() };
-                    let (dir, (r, events)): (Dir, (Result<(), String>, Vec<Event>)) = match ep {
-                        "write" => (Dir::ToGuest, traced(|| vs.write(local, 0).map(|_| ()).map_err(|e| format!("{:?}", e)))),
-                        "read" => (Dir::FromGuest, traced(|| vs.read(local, 0).map(|_| ()).map_err(|e| format!("{:?}", e)))),
-                        "write_slice" => (Dir::ToGuest, traced(|| vs.write_slice(local, 0).map_err(|e| format!("{:?}", e)))),
-                        "read_slice" => (Dir::FromGuest, traced(|| vs.read_slice(local, 0).map_err(|e| format!("{:?}", e)))),
-                        "copy_from<u8>" => (Dir::ToGuest, traced(|| {
-                            vs.subslice(0, len).unwrap().copy_from(&*local);
-                            Ok(())
-                        })),
-                        "copy_to<u8>" => (Dir::FromGuest, traced(|| {
-                            vs.subslice(0, len).unwrap().copy_to(local);
-                            Ok(())
-                        })),
-                        "read_volatile_from(&[u8])" => (Dir::ToGuest, traced(|| {
-                            let mut src: &[u8] = &*local;
-                            vs.read_volatile_from(0, &mut src, len).map(|_| ()).map_err(|e| format!("{:?}", e))
-                        })),
-                        "write_volatile_to(&mut [u8])" => (Dir::FromGuest, traced(|| {
-                            let mut dst: &mut [u8] = &mut *local;
-                            vs.write_volatile_to(0, &mut dst, len).map(|_| ()).map_err(|e| format!("{:?}", e))
-                        })),
-                        "write_obj" => (Dir::ToGuest, traced(|| {
-                            match len {
-                                1 => vs.write_obj(0x90u8, 0),
-                                2 => vs.write_obj(0x9190u16, 0),
-                                4 => vs.write_obj(0x9392_9190u32, 0),
-                                _ => vs.write_obj(0x9796_9594_9392_9190u64, 0),
-                            }
-                            .map_err(|e| format!("{:?}", e))
-                        })),
-                        _ => (Dir::FromGuest, traced(|| {
-                            match len {
-                                1 => vs.read_obj::<u8>(0).map(|v| local.copy_from_slice(&v.to_ne_bytes())),
-                                2 => vs.read_obj::<u16>(0).map(|v| local.copy_from_slice(&v.to_ne_bytes())),
-                                4 => vs.read_obj::<u32>(0).map(|v| local.copy_from_slice(&v.to_ne_bytes())),
-                                _ => vs.read_obj::<u64>(0).map(|v| local.copy_from_slice(&v.to_ne_bytes())),
-                            }
-                            .map_err(|e| format!("{:?}", e))
-                        })),
-                    };
-                    ctx.case(true);
-                    // whole objects live in the callee: naturally aligned, address not observable
-                    let l_addr = if ep.ends_with("_obj") { 0 } else { lptr as usize };
-                    let mut bad: Option<(String, String)> = None;
-                    if let Err(e) = r {
-                        bad = Some(("unexpected-error".into(), e));
-                    } else if len > 8 {
-                        // bulk path: only the data is judged
-                    } else if let Err(e) = judge(&events, dir, gptr as usize, l_addr, len, (gptr as usize, gptr as usize + 32)) {
-                        bad = Some(e);
-                    }
-                    if bad.is_none() {
-                        let now_l: Vec<u8> = unsafe { std::slice::from_raw_parts(lptr, 32).to_vec() };
-                        let now_g: Vec<u8> = unsafe { std::slice::from_raw_parts(gptr, 32).to_vec() };
-                        let ok = match dir {
-                            Dir::ToGuest => (ep == "write_obj" || now_g[..len] == before_l[..len]) && now_g[len..] == before_g[len..] && now_l == before_l && (ep != "write_obj" || now_g[..len] == before_l[..len]),
-                            Dir::FromGuest => now_l[..len] == before_g[..len] && now_l[len..] == before_l[len..] && now_g == before_g,
-                        };
-                        if !ok {
-                            bad = Some(("data".into(), "the bytes did not arrive unchanged, or other bytes changed".into()));
-                        }
-                    }
-                    if let Some((k, d)) = bad {
+                for ep in PLACED_EPS {
+                    if let Some((k, d)) = placed_transfer(ctx, ep, gptr, lptr, len) {
                         let key = format!("C06/slice/{} (host address aligned to a large power of two)/{}", ep, k);
                         let rp = if ctx.has_failed(&key) { Value::Null } else { json!({"entry_point": ep, "len": len, "trailing_zero_bits": tz, "aligned_side": if guest_is_high { "guest" } else { "local buffer" }, "address": format!("{:#x}", addr)}) };
                         ctx.fail(&key, &format!("len {}, {} at {:#x} ({} trailing zero bits): {}", len, if guest_is_high { "guest bytes" } else { "local buffer" }, addr, tz, d), rp);
@@ -929,7 +971,7 @@ fn schedules(ctx: &Ctx) {
 
 pub fn run(tier: Tier, replay: Option<String>) -> i32 {
     let ctx = crate::new_ctx("C06", tier, "model_checking", &replay);
-    ctx.set_rule("(a) trace enumeration: for every transfer length 0..=8 x guest address mod 8 x local address mod 8 (576 classes) x 18 entry points that funnel into the byte-copy helper (write/read/write_slice/read_slice, copy_to/copy_from::<u8> and VolatileArrayRef<u8> copies with a local buffer of the same length and a longer one, &[u8]/&mut [u8]/Vec<u8>/Cursor adapters, plain and exact stream forms; buffer-level entry points also with the local buffer directly before / after the guest bytes in one allocation; Vec<u8> sinks additionally in every fill state: capacity 0..=24 x bytes already held x length 1..=8 x guest address mod 8) and for whole objects of 1..16 bytes at every guest address of two adjacent regions (incl. objects straddling the boundary) through the guest-memory layer: hook H1 records kind, address and width of every primitive volatile access; required: the guest bytes accessed are exactly the range, each once, every access naturally aligned, exactly ONE access of the full width when the length is 1/2/4/8 and both addresses are aligned to it, the data arrives, and a transfer that moved bytes without a recorded volatile access is a violation; the same rule for 10 entry points x lengths {1,2,4,8,3,16} with the guest bytes, and in turn the local buffer, at a host address with exactly 4..=46 trailing zero bits (mmap MAP_FIXED_NOREPLACE at k << tz); atomic store/load for all 10 integer types at every offset: Ok iff aligned, value round-trips. (b) E3: all interleavings, with a scheduling point before every primitive access, of a writer flipping 0 <-> all-ones twice and a reader reading twice (u16, u32, u64, and a 16-byte object whose first chunk is the last aligned u64 of a region): the reader may only see the old or the new value. States = choice-tree nodes, traces = schedules executed on the real code.");
+    ctx.set_rule("(a) trace enumeration: for every transfer length 0..=8 x guest address mod 8 x local address mod 8 (576 classes) x 18 entry points that funnel into the byte-copy helper (write/read/write_slice/read_slice, copy_to/copy_from::<u8> and VolatileArrayRef<u8> copies with a local buffer of the same length and a longer one, &[u8]/&mut [u8]/Vec<u8>/Cursor adapters, plain and exact stream forms; buffer-level entry points also with the local buffer directly before / after the guest bytes in one allocation; Vec<u8> sinks additionally in every fill state: capacity 0..=24 x bytes already held x length 1..=8 x guest address mod 8) and for whole objects of 1..16 bytes at every guest address of two adjacent regions (incl. objects straddling the boundary) through the guest-memory layer: hook H1 records kind, address and width of every primitive volatile access; required: the guest bytes accessed are exactly the range, each once, every access naturally aligned, exactly ONE access of the full width when the length is 1/2/4/8 and both addresses are aligned to it, the data arrives, and a transfer that moved bytes without a recorded volatile access is a violation; the same rule for 10 entry points x lengths {1,2,4,8,3,16} with the guest bytes, and in turn the local buffer, at a host address with exactly 4..=46 trailing zero bits (mmap MAP_FIXED_NOREPLACE at k << tz), and at every naturally aligned position of a 4 KiB page and across the boundary to the next one; atomic store/load for all 10 integer types at every offset: Ok iff aligned, value round-trips. (b) E3: all interleavings, with a scheduling point before every primitive access, of a writer flipping 0 <-> all-ones twice and a reader reading twice (u16, u32, u64, and a 16-byte object whose first chunk is the last aligned u64 of a region): the reader may only see the old or the new value. States = choice-tree nodes, traces = schedules executed on the real code.");
     ctx.assume("one naturally aligned volatile access of <= 8 bytes is a single machine access (LLVM volatile semantics, x86-64/aarch64 single-copy atomicity); SC interleavings of whole primitive accesses");
     if ctx.replay_of.is_some() {
         println!("replay: deterministic enumeration; re-running it");
@@ -944,6 +986,7 @@ pub fn run(tier: Tier, replay: Option<String>) -> i32 {
     crate::crash::guarded(&ctx, &describe, || adjacent_classes(&ctx));
     crate::crash::guarded(&ctx, &describe, || object_classes(&ctx));
     crate::crash::guarded(&ctx, &describe, || high_alignment_classes(&ctx));
+    crate::crash::guarded(&ctx, &describe, || page_positions(&ctx));
     orderings(&ctx);
     atomic_alignment(&ctx);
     schedules(&ctx);
